@@ -944,6 +944,24 @@ func stress(c *lib.Ctx, r *lib.RNG) []lib.OracleFail {
 			}
 			return out
 		}
+		// children forked DURING the concurrent phase (Fork racing with Join/Exit, fix 37f33b8)
+		type lateKid struct {
+			parent int
+			proc   *process.Process
+		}
+		var lateMu sync.Mutex
+		var lateKids []lateKid
+		lateKidsOf := func(p int) []*process.Process {
+			lateMu.Lock()
+			defer lateMu.Unlock()
+			var out []*process.Process
+			for _, k := range lateKids {
+				if k.parent == p {
+					out = append(out, k.proc)
+				}
+			}
+			return out
+		}
 		// hooks of the set-up phase registered on child c only: attributable at Join time
 		setupOnly := func(c int) []*sHook {
 			var out []*sHook
@@ -967,7 +985,7 @@ func stress(c *lib.Ctx, r *lib.RNG) []lib.OracleFail {
 			nops := gr.Range(2, 10)
 			ops := make([]op, nops)
 			for i := range ops {
-				ops[i] = op{kind: gr.Weighted([]int{5, 5, 2, 2, 1}), p: gr.Intn(np), e: gr.Intn(len(errs))}
+				ops[i] = op{kind: gr.Weighted([]int{5, 5, 2, 2, 1, 2}), p: gr.Intn(np), e: gr.Intn(len(errs))}
 				if ops[i].kind == 1 {
 					ops[i].h = pick(gr, ops[i].p)
 					ops[i].ord = ordc[[2]int{ops[i].p, g}]
@@ -1010,12 +1028,20 @@ func stress(c *lib.Ctx, r *lib.RNG) []lib.OracleFail {
 					case 1:
 						register(o.h, o.p, g, o.ord)
 					case 2:
-						kids := kidsOf(o.p) // all forks were issued in the set-up phase
+						// Join waits for every Fork that has RETURNED before it is called: the children of
+						// the set-up phase and those forked so far by the racing goroutines
+						kids := kidsOf(o.p)
+						forked := lateKidsOf(o.p)
 						var hs [][]*sHook
 						for _, c := range kids {
 							hs = append(hs, setupOnly(c))
 						}
 						procs[o.p].Join()
+						for _, k := range forked {
+							if k.Status() != process.StatusTerminated {
+								note(fmt.Sprintf("Join(p%d) returned while a child forked before the Join (concurrently with other Joins) is running", o.p))
+							}
+						}
 						for i, c := range kids {
 							if procs[c].Status() != process.StatusTerminated {
 								note(fmt.Sprintf("Join(p%d) returned while child p%d is running", o.p, c))
@@ -1034,6 +1060,11 @@ func stress(c *lib.Ctx, r *lib.RNG) []lib.OracleFail {
 					case 4:
 						_ = procs[o.p].Keys()
 						_ = procs[o.p].Status()
+					case 5:
+						k := procs[o.p].Fork()
+						lateMu.Lock()
+						lateKids = append(lateKids, lateKid{o.p, k})
+						lateMu.Unlock()
 					}
 				}
 			}()
@@ -1084,6 +1115,14 @@ func stress(c *lib.Ctx, r *lib.RNG) []lib.OracleFail {
 			if procs[p].Status() != process.StatusTerminated {
 				add("cascade-incomplete", fmt.Sprintf("%s: p%d still running after the root exited and every Exit returned", desc, p), replay)
 			}
+		}
+		for _, k := range lateKids {
+			if k.proc.Status() != process.StatusTerminated || k.proc.Err() == nil {
+				add("cascade-incomplete", fmt.Sprintf("%s: a child forked from p%d during the concurrent phase is still running after the root exited", desc, k.parent), replay)
+			}
+		}
+		if len(lateKids) > 0 {
+			c.Hit("stress-round-with-concurrent-fork")
 		}
 		sharedSeen := false
 		for _, h := range hooks[:nHooks] {
@@ -1137,10 +1176,10 @@ func Run(c *lib.Ctx) {
 		"A case is non-trivial when it contains ≥2 of: concurrent Exit on one process, AddExitHook racing with a parked Exit, double Exit, Fork, Join, late AddExitHook, duplicate AddExitHook, a hook object registered on two processes; distinct by full script. " +
 		"oracle: statement checked on every deterministic case and on free-running rounds (distinct by seed/round)"
 	c.Assumptions = []string{
-		"each mu.Lock…mu.Unlock section of Process is one atomic step (sync.RWMutex is correct); sync.WaitGroup behaves as a counter whose Wait returns iff it is 0",
+		"each mu.Lock…mu.Unlock section of Process is one atomic step (sync.RWMutex is correct); sync.Cond.Wait atomically releases p.mu and parks, and returns only after a Broadcast (then re-acquires p.mu)",
 		"user hooks do not call back into the process (harness hooks only log and park)",
-		"Join is used as documented: not concurrently with the first Fork on an idle wait group",
-		"a goroutine parked inside sync.(*WaitGroup).Wait is recognised by its runtime wait state (runtime.Stack)",
+		"Join may run concurrently with Fork (fix 37f33b8: children counter + sync.Cond); it waits for the forks whose children++ precedes its last check",
+		"a goroutine parked inside Process.Join (sync.(*Cond).Wait) is recognised by its runtime wait state (runtime.Stack)",
 		"forkAdd/forkReg and the steps between two user hooks cannot be separated on the real code without editing it; the correspondence exercises them coalesced, the theorems cover them separately",
 	}
 	c.Trusted = []string{"Go runtime: goroutine wait states reported by runtime.Stack"}
